@@ -203,6 +203,10 @@ else:
                     smooth = self.walk_interval // len(self.strategies) if self.strategies else 0
                     ticker = len(self.strategies)
                     for strategy, target_peers in self.strategies:
+                        if (strategy, target_peers) not in self.strategies:
+                            # Removed while we were sleeping between two strategies (``unload_overlay()`` replaces
+                            # ``self.strategies``, we are still iterating over the old list).
+                            continue
                         start_time = time.time()
                         try:
                             # We wrap the take_step into a general except as it is prone to programmer error.
